@@ -65,7 +65,15 @@ def crosscheck(con, k, seed, repo_root, verif_root):
     cfg = C.make_config(repo_root, verif_root)
     cfg.target = con.func
     # pure interpretation of every body: this checks the interpreter, not the contracts (ghost-traced externals stay)
-    cfg.contracts = dict((k, c) for k, c in cfg.contracts.items() if isinstance(c, C.TraceContract))
+    kept = {}
+    for fid, c in cfg.contracts.items():
+        if isinstance(c, C.TraceContract):
+            kept[fid] = c
+        elif isinstance(c, C._ContractChoice):
+            tr = [a for a in c.alts if isinstance(a, C.TraceContract)]
+            if tr:
+                kept[fid] = tr[0]
+    cfg.contracts = kept
     tries = 0
     while out['runs'] < k and tries < 6 * k:
         tries += 1
